@@ -885,9 +885,14 @@ def filter_kwargs(_function, *args, **kwargs):
     if has_kwargs(_function):
         return _function(*args, **kwargs)
 
-    # Get the list of function arguments
-    func_code = _function.__code__
-    function_args = func_code.co_varnames[: func_code.co_argcount]
+    # Get the list of function arguments.  Use the signature rather than the
+    # code object, so that decorated functions (e.g. @deprecated) are handled
+    sig = inspect.signature(_function)
+    function_args = [
+        name
+        for name, param in sig.parameters.items()
+        if param.kind in (param.POSITIONAL_ONLY, param.POSITIONAL_OR_KEYWORD)
+    ]
     # Construct a dict of those kwargs which appear in the function
     filtered_kwargs = {}
     for kwarg, value in list(kwargs.items()):
